@@ -8,6 +8,9 @@ import traceback
 import warnings
 
 
+REACH_SAMPLE = 40
+
+
 def main():
     module, inp, out = sys.argv[1:4]
     warnings.simplefilter('ignore')
@@ -34,7 +37,9 @@ def main():
         except Exception:
             mon = None
     with open(out, 'w') as fh:
-        for j, spec in chunk:
+        for n_done, (j, spec) in enumerate(chunk):
+            if mon is not None and n_done == REACH_SAMPLE:
+                mon.set_events(3, 0)          # reach counters cover the first REACH_SAMPLE cases of every worker only (cost)
             try:
                 r = mod.run_case(spec)
             except Exception as e:   # a crash of the *monitor or tool* on this case
